@@ -49,22 +49,22 @@ type PanicInfo struct {
 
 // StmtObs is what one top-level statement did.
 type StmtObs struct {
-	Src       string
-	Parse     *ParseErr
-	Value     val.Value
-	Err       string // error class ("" = none)
-	ErrText   string
-	Out       string // program output (before the error report)
-	Report    string // runtime error report text, marker included
-	Panic     *PanicInfo
-	StepLimit bool
-	Hang      string // front-end progress bound tripped
-	Steps     int
-	LastIP    int
-	LastInstr bytecode.Type
-	LastDepth int
-	Before    MachState
-	After     MachState
+	Src                                string
+	Parse                              *ParseErr
+	Value                              val.Value
+	Err                                string // error class ("" = none)
+	ErrText                            string
+	Out                                string // program output (before the error report)
+	Report                             string // runtime error report text, marker included
+	Panic                              *PanicInfo
+	StepLimit                          bool
+	Hang                               string // front-end progress bound tripped
+	Steps                              int
+	LastIP                             int
+	LastInstr                          bytecode.Type
+	LastDepth                          int
+	Before                             MachState
+	After                              MachState
 	MaxSPMain, MaxSPChild, MaxStackLen int
 	BackEdges, MaxCtxBackEdge          int
 	Grow, CloneNew, CloneReuse         int
